@@ -51,6 +51,7 @@ Section ExprInd.
   Hypothesis HExists : forall q, P (EExists q).
   Hypothesis HAgg : forall f a, P (EAgg f a).
   Hypothesis HCall : forall q n args, Forall P args -> P (ECall q n args).
+  Hypothesis HTuple : forall items, Forall P items -> P (ETuple items).
 
   Fixpoint c19_expr_ind (e : expr Q) : P e :=
     let all := fix go (l : list (expr Q)) : Forall P l :=
@@ -87,6 +88,7 @@ Section ExprInd.
     | EExists q => HExists q
     | EAgg f a => HAgg f a
     | ECall q n a => HCall q n a (all a)
+    | ETuple l => HTuple l (all l)
     end.
 End ExprInd.
 Arguments c19_expr_ind {Q}.
@@ -174,7 +176,7 @@ Section Rel.
       destruct E as [d s x a c h], E' as [d' s' x' a' c' h']. cbn in Hd, Hh, Hs, Hx, Ha, Hc. subst d' h'.
       induction e as [p|f|str|b| |ea eb IHa IHb|ea eb IHa IHb|ea IHa|op ea eb IHa IHb|n ea eb IHa IHb
                      |n ea items IHa IHitems|n ea q IHa|n ea lo hi IHa IHlo IHhi|op ea IHa|op ea eb IHa IHb
-                     |op ea IHa|whens els IHw IHe|q|q|f arg|qual name args IHargs] using c19_expr_ind;
+                     |op ea IHa|whens els IHw IHe|q|q|f arg|qual name args IHargs|titems IHtitems] using c19_expr_ind;
         intro cur; cbn [eval col_path e_data e_hard e_sub e_exists e_agg e_call].
       - apply R_refl.
       - apply R_refl.
@@ -215,6 +217,12 @@ Section Rel.
         apply R_bind; [|intro; apply Hc].
         induction IHargs as [|y r Hy _ IHr]; [apply R_refl|].
         apply R_bind; [apply Hy|]. intro y0. apply R_bind; [apply R_refl|]. intro v0.
+        apply R_bind; [apply IHr|]. intro; apply R_refl.
+      - (* ETuple *)
+        apply R_bind; [|intro; apply R_refl].
+        induction IHtitems as [|y r Hy _ IHr]; [apply R_refl|].
+        destruct (slot_form y); [apply R_refl|].
+        apply R_bind; [apply Hy|]. intro y0. apply R_bind; [apply R_refl|]. intro y1.
         apply R_bind; [apply IHr|]. intro; apply R_refl.
     Qed.
 
